@@ -66,7 +66,10 @@ def generate(seed, tier='quick'):
         nr = rng.randint(1, 4)
         for r in range(nr):
             # any 2xx accepts a recipient (251 "will forward", 252)
-            steps.append({'m': 'rcpt', 'addr': 'r%d.%d@b.example' % (t, r),
+            # (now and then the same address again: a recipient list may
+            # name an address twice, and each RCPT is a command of its own)
+            steps.append({'m': 'rcpt', 'addr': 'r%d.%d@b.example' % (
+                t, r if r == 0 or rng.random() > 0.2 else r - 1),
                           'reply': gen_reply(rng, rng.choice(
                               ['250', '250', '251', '252']), 0.3)})
         steps.append({'m': 'data', 'reply': gen_reply(rng, '354', 0.2)})
